@@ -26,7 +26,8 @@ import numpy as np
 from . import c01_synth as S
 from .common import fr, quiet_fd
 
-KIND = {"v": 0, "d": 1, "c": 2, "t": 3, "p": 4}
+KIND = {"v": 0, "d": 1, "D": 1, "c": 2, "t": 3, "p": 4}
+ZERO_EQ = {"c": 0.0, "t": []}
 
 
 # -------------------------------------------------------------------------------------------------
@@ -89,6 +90,27 @@ def wire_eqs(eqs):
                                      for co, facs in eq["t"]]} for eq in eqs]
 
 
+def model_init_eqs(inst):
+    """initial equations handed to the model; a path constraint of the history probe is appended
+    as additional 'initial equations' (its t0 instance receives exactly the initial inputs)"""
+    ie = inst.get("init_eqs")
+    pc = inst.get("pc") or []
+    if not pc:
+        return None if ie is None else wire_eqs(ie)
+    return wire_eqs((ie if ie is not None else [ZERO_EQ]) + pc)
+
+
+def pc_positions(inst):
+    """positions of the path-constraint rows inside the model's / oracle's row list"""
+    pc = inst.get("pc") or []
+    if not pc:
+        return []
+    ne = len(inst["eqs"])
+    ni = len(inst["init_eqs"]) if inst.get("init_eqs") is not None else 1
+    B = ne + ni + len(pc)
+    return [m * B + ne + ni + q for m in range(inst["E"]) for q in range(len(pc))]
+
+
 def wire_series(s):
     return None if s is None else {"t": [fr(x) for x in s["times"]], "v": [fr(x) for x in s["values"]]}
 
@@ -116,7 +138,7 @@ def driver_line(cs, probes):
         cin=[[wire_series(inst["cin"][m][j]) for j in range(inst["nci"])] for m in range(E)],
         hist=[[wire_series(hist[m].get(v)) for v in vs] for m in range(E)],
         eqs=wire_eqs(inst["eqs"]),
-        init_eqs=(None if inst.get("init_eqs") is None else wire_eqs(inst["init_eqs"])),
+        init_eqs=model_init_eqs(inst),
         probes=probes,
     )
 
@@ -150,12 +172,14 @@ def wire_dense(Xv):
 # multiset comparison of rows
 
 
-def match_rows(ref, got, ref_b, got_b):
+def match_rows(ref, got, ref_b, got_b, subset=False):
     """ref, got: 2-D float arrays (rows x features); *_b: list of (lb, ub) per row.
     Returns None when the two are equal as multisets (1e-9 relative per entry, plus 1e-10 of the
     row scale for entries that cancel), else a short description."""
-    if ref.shape[0] != got.shape[0]:
+    if ref.shape[0] != got.shape[0] and not subset:
         return "row count %d vs %d" % (ref.shape[0], got.shape[0])
+    if got.shape[0] == 0 and ref.shape[0]:
+        return "no candidate rows for %d reference rows" % ref.shape[0]
     if ref.shape[0] == 0:
         return None
     used = np.zeros(got.shape[0], dtype=bool)
@@ -205,6 +229,17 @@ def input_at(mode, ts, fs, t):
     return interp_own(mode, ts, fs, t)
 
 
+def hist_der(h, t0):
+    """initial derivative of a non-differentiated variable from its history"""
+    if h is None:
+        return Fraction(0)
+    t = [Fraction(x) for x in h["times"]]
+    v = [Fraction(x) for x in h["values"]]
+    if len(v) < 2 or t[0] == t0:
+        return Fraction(0)
+    return (v[-1] - v[-2]) / (t[-1] - t[-2])
+
+
 def spec_rows(inst, traj, dinit):
     """theta-method residuals of the property statement.
     traj[m][v][i]: physical value of collocated variable v of member m at collocation time i;
@@ -228,14 +263,21 @@ def spec_rows(inst, traj, dinit):
             return out
 
         z = lambda i: [traj[m][v][i] for v in range(nv)]  # noqa: E731
-        # t0: F = 0 and the initial equations with the free initial derivatives
-        d0 = [dinit[m][s] for s in range(ns)]
-        rows.append(("init", m, S.eval_eqs(inst["eqs"], z(0), d0, c_at(0), Fraction(0), p)
-                     + (S.eval_eqs(inst["init_eqs"], z(0), d0, c_at(0), Fraction(0), p)
-                        if inst.get("init_eqs") is not None else [Fraction(0)])))
+        # t0: F = 0 and the initial equations with the free initial derivatives (differentiated
+        # states); algebraic states and controls: backward difference of the last two history
+        # points when the history has at least two points, else 0
+        hist = (inst.get("history") or [{}] * inst["E"])[m]
+        d0 = [dinit[m][s] for s in range(ns)] + [hist_der(hist.get(v), t0) for v in S.var_names(inst)[ns:]]
+        init = S.eval_eqs(inst["eqs"], z(0), d0, c_at(0), Fraction(0), p)
+        init += (S.eval_eqs(inst["init_eqs"], z(0), d0, c_at(0), Fraction(0), p)
+                 if inst.get("init_eqs") is not None else [Fraction(0)])
+        rows.append(("init", m, init))
+        if inst.get("pc"):
+            # history probe: the t0 instance of a path constraint sees the same initial inputs
+            rows.append(("pc", m, S.eval_eqs(inst["pc"], z(0), d0, c_at(0), Fraction(0), p)))
         for i in range(n - 1):
             dt = ts[i + 1] - ts[i]
-            zd = [(traj[m][s][i + 1] - traj[m][s][i]) / dt for s in range(ns)]
+            zd = [(traj[m][v][i + 1] - traj[m][v][i]) / dt for v in range(nv)]
             f0 = S.eval_eqs(inst["eqs"], z(i), zd, c_at(i), ts[i] - t0, p)
             f1 = S.eval_eqs(inst["eqs"], z(i + 1), zd, c_at(i + 1), ts[i + 1] - t0, p)
             rows.append(("step", m, i, [(1 - th) * a + th * b for a, b in zip(f0, f1)]))
@@ -270,15 +312,20 @@ def decode(cs, Xv):
 
 
 def oracle_values(cs, probes):
-    """spec rows at each probe: array (rows x probes)"""
-    cols = []
+    """spec rows at each probe: arrays (rows x probes) of the model rows and of the t0
+    path-constraint rows of the history probe"""
+    cols, pcols = [], []
     for Xv in probes:
         traj, dinit = decode(cs, Xv)
-        vals = []
+        vals, pvals = [], []
         for r in spec_rows(cs.inst, traj, dinit):
-            vals.extend(r[-1])
+            (pvals if r[0] == "pc" else vals).extend(r[-1])
         cols.append([float(x) for x in vals])
-    return np.array(cols, dtype=float).T if cols else np.zeros((0, 0))
+        pcols.append([float(x) for x in pvals])
+    P = len(probes)
+    main = np.array(cols, dtype=float).T.reshape((-1, P)) if cols else np.zeros((0, 0))
+    pc = np.array(pcols, dtype=float).T.reshape((-1, P)) if pcols else np.zeros((0, 0))
+    return main, pc
 
 
 # -------------------------------------------------------------------------------------------------
@@ -331,6 +378,34 @@ def compare(c, cs, out):
               "eqs": inst["eqs"][:2]})
     code_b = list(zip(cs.lb.tolist(), cs.ub.tolist()))
     gd = np.array([g_at(cs, x) for x in cs.dense]).T if cs.R else np.zeros((0, len(cs.dense)))
+    # rows of g that belong to the model: all of them, except (history probe only) the rows of
+    # the probe's path constraint, which carry the bounds (-7, 9)
+    pcpos = pc_positions(inst)
+    if pcpos:
+        c.hit("history probe (initial derivatives of algebraics/controls)")
+        pcb = tuple(float(x) for x in inst["pc_bounds"])
+        code_pc = [r for r in range(cs.R) if code_b[r] == pcb]
+        code_main = [r for r in range(cs.R) if code_b[r] != pcb]
+    else:
+        code_pc, code_main = [], list(range(cs.R))
+
+    def sel(M, rows):
+        return M[rows, :] if len(rows) else np.zeros((0, M.shape[1]))
+
+    def split(M, bounds):
+        """(main rows, pc rows) of a model / oracle row matrix in the model's row order"""
+        main = [r for r in range(M.shape[0]) if r not in set(pcpos)]
+        return (sel(M, main), [bounds[r] for r in main]), (sel(M, pcpos), [bounds[r] for r in pcpos])
+
+    def both(M, bounds, C, what_main, what_pc, report, parts=None):
+        (Mm, bm), (Mp, _bp) = parts if parts is not None else split(M, bounds)
+        why = match_rows(Mm, sel(C, code_main), bm, [code_b[r] for r in code_main])
+        if why:
+            report(what_main + why)
+        elif pcpos:
+            why = match_rows(Mp, sel(C, code_pc), [pcb] * len(pcpos), [code_b[r] for r in code_pc], subset=True)
+            if why:
+                report(what_pc + why)
 
     # ---- independent oracle: the property statement on decoded trajectories vs the real g
     try:
@@ -339,12 +414,12 @@ def compare(c, cs, out):
         c.disagree("layout could not be decoded: %s" % e, slim(inst))
         ov = None
     if ov is not None:
-        if ov.shape[0] == 0:
-            ov = ov.reshape((0, len(cs.dense)))
-        why = match_rows(ov, gd, [(0.0, 0.0)] * ov.shape[0], code_b)
-        if why:
-            c.fail("rows of g are not the theta-method residuals (missing / extra / mis-weighted / mis-timed row): " + why,
-                   slim(inst), {"rows_spec": int(ov.shape[0]), "rows_g": int(cs.R)})
+        om, op = ov
+        both(None, None, gd,
+             "rows of g are not the theta-method residuals (missing / extra / mis-weighted / mis-timed row): ",
+             "initial derivatives handed to the t0 instance differ from the specification: ",
+             lambda why: c.fail(why, slim(inst), {"rows_spec": int(om.shape[0]), "rows_g": int(cs.R)}),
+             parts=((om, [(0.0, 0.0)] * om.shape[0]), (op, None)))
     # ---- correspondence with the Lean model
     if out is None:
         return
@@ -367,16 +442,14 @@ def compare(c, cs, out):
             Cm = np.hstack([cs.b.reshape(-1, 1), cs.A / cs.scale[None, :]])
         else:
             Cm = np.zeros((0, cs.N + 1))
-        why = match_rows(M, Cm, mb, code_b)
-        if why:
-            c.disagree("affine system (A, b, lbg, ubg) differs: " + why, slim(inst))
+        both(M, mb, Cm, "affine system (A, b, lbg, ubg) differs: ", "affine t0 path-constraint rows differ: ",
+             lambda why: c.disagree(why, slim(inst)))
         dv = vals[nu:]
     else:
         dv = vals
     Md = np.array([[float(x) for x in row] for row in dv], dtype=float).T if dv and len(dv[0]) else np.zeros((0, len(cs.dense)))
-    why = match_rows(Md, gd, mb, code_b)
-    if why:
-        c.disagree("row values at probe decision vectors differ: " + why, slim(inst))
+    both(Md, mb, gd, "row values at probe decision vectors differ: ", "t0 path-constraint row values differ: ",
+         lambda why: c.disagree(why, slim(inst)))
 
 
 def solve_and_check(c, cs):
@@ -442,6 +515,18 @@ CORPUS = [
          nom={"x0": 10.0}, pvals=[[0.0], [0.0], [5.0]], cin=[[], [], []], modes={},
          eqs=[{"c": 1.0, "t": [[1.0, [["d", 0]]], [0.5, [["p", 0], ["v", 0]]]]}],
          init_eqs=None, history=[{}, {}, {}], own_times={}, bounds={}),
+    # the instance of the non-vacuity example in Props/C01.lean
+    dict(kind="affine", ns=1, na=0, nc=1, nci=1, npar=1, E=2, ts=[0.0, 1.0, 3.0], theta=0.25,
+         nom={"x0": 2.0, "u0": 0.5}, pvals=[[1.0], [2.0]],
+         cin=[[{"times": [0.0, 3.0], "values": [1.0, 4.0]}], [{"times": [0.0, 3.0], "values": [1.0, 5.0]}]], modes={},
+         eqs=[{"c": 0.0, "t": [[1.0, [["d", 0]]], [1.0, [["p", 0], ["v", 0]]], [-1.0, [["v", 1]]], [-1.0, [["c", 0]]], [1.0, [["t"]]]]}],
+         init_eqs=[{"c": -5.0, "t": [[1.0, [["v", 0]]]]}], history=[{}, {}], own_times={}, bounds={}),
+    # F36 (fixed in 5a48f10): algebraic state with history [1.5, -4.5, 1.75] at [-2, -1, 0]
+    dict(kind="affine", ns=1, na=1, nc=0, nci=0, npar=0, E=1, ts=[0.0, 1.0, 2.0], theta=1.0,
+         nom={"x0": 1.0, "a0": 1.0}, pvals=[[]], cin=[[]], modes={},
+         eqs=[{"c": 0.0, "t": [[1.0, [["d", 0]]], [1.0, [["v", 0]]]]}, {"c": 0.0, "t": [[1.0, [["v", 1]]], [-1.0, [["v", 0]]]]}],
+         init_eqs=None, history=[{"a0": {"times": [-2.0, -1.0, 0.0], "values": [1.5, -4.5, 1.75]}}], own_times={}, bounds={},
+         pc=[{"c": 0.0, "t": [[1.0, [["D", 1]]]]}], pc_bounds=(-7.0, 9.0)),
 ]
 
 
@@ -492,11 +577,17 @@ def run(c):
             inst["history"] = [{} for _ in range(inst["E"])]
         if S.add_own_times(rng, inst):
             own.append(inst)
+    hist = []
+    while len(hist) < c.n(10, 80):
+        inst = S.gen_instance(rng, kind=rng.choice(["affine", "nonlinear"]))
+        if inst["na"] + inst["nc"] == 0:
+            continue
+        hist.append(S.add_history_probe(rng, inst))
     sol = [S.gen_instance(rng, kind="solve") for _ in range(n_solve)]
     for inst in sol[: n_solve // 3]:
         S.add_own_times(rng, inst)
     # batches keep the driver input small
-    allinst = insts + own
+    allinst = insts + own + hist
     for k in range(0, len(allinst), 40):
         run_batch(c, allinst[k:k + 40], rng)
     run_batch(c, sol, rng, solve=True)
